@@ -22,6 +22,8 @@ func Run(t *testing.T, p *plan.Plan, keepLog int) *Result {
 		return RunAddr(t, p, keepLog)
 	case "auth":
 		return RunAuth(t, p, keepLog)
+	case "latedial":
+		return RunLateDial(t, p, keepLog)
 	}
 	return &Result{Seed: p.Seed, Family: p.Family, Focus: p.Focus, Note: "unknown family"}
 }
